@@ -34,17 +34,18 @@ type Job struct {
 
 // Summary is the last line a seeds/enum worker writes.
 type Summary struct {
-	Kind        string         `json:"kind"`
-	Evaluations int            `json:"evaluations"`
-	Nontrivial  int            `json:"nontrivial"`
-	Hashes      []string       `json:"hashes"`
-	Steps       int64          `json:"steps"`
-	Switches    int64          `json:"switches"`
-	FakeNs      int64          `json:"fake_ns"`
-	Fired       map[string]int `json:"fired"`
-	Probes      map[string]int `json:"probes"`
-	Classes     map[string]int `json:"classes"`
-	WallS       float64        `json:"wall_s"`
+	Kind        string            `json:"kind"`
+	Evaluations int               `json:"evaluations"`
+	Nontrivial  int               `json:"nontrivial"`
+	Hashes      []string          `json:"hashes"`
+	Steps       int64             `json:"steps"`
+	Switches    int64             `json:"switches"`
+	FakeNs      int64             `json:"fake_ns"`
+	Fired       map[string]int    `json:"fired"`
+	Probes      map[string]int    `json:"probes"`
+	Classes     map[string]int    `json:"classes"`
+	Refs        map[string]string `json:"refs,omitempty"`
+	WallS       float64           `json:"wall_s"`
 }
 
 // Record is one line of the worker's JSONL output.
@@ -185,6 +186,16 @@ func TestSim(t *testing.T) {
 			}
 			for _, c := range o.Classes() {
 				sum.Classes[c]++
+			}
+			for k, v := range o.Refs {
+				if sum.Refs == nil {
+					sum.Refs = map[string]string{}
+				}
+				if old, ok := sum.Refs[k]; ok && old != v {
+					sum.Refs[k] = old + "|" + v
+				} else {
+					sum.Refs[k] = v
+				}
 			}
 			if o.Nontrivial {
 				sum.Nontrivial++
